@@ -245,6 +245,28 @@ func StoresToField(fns []*ssa.Function, typ, field string) []*ssa.Store {
 // LiteralField returns the value stored to field `field` of the struct
 // allocated by `alloc` (composite literal &T{…}) within the same function.
 func LiteralField(alloc ssa.Value, field string) (ssa.Value, bool) {
+	// the literal sits in a new constructor helper that is called from several places
+	// (newBackendTracker(time.Now())): the field reads as this call's argument
+	if call, isCall := alloc.(*ssa.Call); isCall {
+		if h := StaticFunc(call.Common()); h != nil && IsNewHelper(h) {
+			if rs := helperResults(call, 0); len(rs) == 1 {
+				if inner, isI := rs[0].(ssa.Instruction); isI && inner.Parent() == h {
+					if v, ok := LiteralField(rs[0], field); ok {
+						if prm, isP := v.(*ssa.Parameter); isP && prm.Parent() == h {
+							for k, x := range h.Params {
+								if x == prm && k < len(call.Call.Args) {
+									return call.Call.Args[k], true
+								}
+							}
+							return nil, false
+						}
+						return v, true
+					}
+				}
+			}
+		}
+		return nil, false
+	}
 	var val ssa.Value
 	n := 0
 	var scan func(base ssa.Value, depth int)
